@@ -67,6 +67,13 @@ def coords(family, grid, npts, seed, spec, centered=False):
         p = np.array([0.75 + 0.5 * d for d in range(nd)])
         q = np.array([n - 0.25 for n in grid])
         c = np.stack([p if j % 3 != 2 else q for j in range(npts)], axis=0)
+    elif family == "huge":
+        # far outside the grid with a fractional part that single precision cannot hold
+        c = np.empty((npts, nd))
+        for d, n in enumerate(grid):
+            seq = [1.0e6 + 0.37, -2.0e6 - 0.61, 3.0e5 + 0.125, -7.0e5 + 0.45, 1.5e6 + 0.9]
+            for j in range(npts):
+                c[j, d] = seq[(j + 2 * d) % len(seq)]
     elif family == "ongrid":
         c = np.stack([r.integers(0, n, size=npts).astype(float) for n in grid], axis=-1)
     elif family == "half":
@@ -449,6 +456,9 @@ def leaf_specs(tier, classes=None):
     widths = [2, 1, 1.5, 2.5, 3, 4]
     grids = [[4], [1], [5], [3, 4], [1, 3], [2, 2, 3]] if not T else [[4], [1], [5], [7], [3, 4], [1, 3], [4, 5], [2, 2, 3], [3, 1, 2]]
     for grid in grids:
+        for (kn, prm) in (("spline", 1), ("kaiser_bessel", 8.0)):
+            for op in ("Interpolate", "Gridding"):
+                add(dict(op=op, grid=grid, batch=[], coord="huge", npts=5, kernel=kn, width=2.5, param=prm))
         for fam in ("tie", "outside", "dup", "random"):
             for (kn, prm) in kerns:
                 for w in widths:
